@@ -4,10 +4,13 @@ exit 0 iff every stable_pass test passes."""
 import json, os, subprocess, sys, tempfile, xml.etree.ElementTree as ET
 base = json.load(open('/root/.vp/BASELINE.json'))
 env = dict(os.environ); env.pop('PKGCORE_VERIF', None)
+REPO = os.environ.get('VERIF_REPO', '/repo')   # a scratch worktree may be tested instead of /repo
+if REPO != '/repo':
+    env['PYTHONPATH'] = os.path.join(REPO, 'src')
 with tempfile.TemporaryDirectory() as d:
     out = os.path.join(d, 'j.xml')
     subprocess.run(['/venv/bin/python', '-m', 'pytest', '-ra', '-q', '-p', 'no:cacheprovider', '--timeout=900',
-                    '--continue-on-collection-errors', '--junitxml=' + out], cwd='/repo', env=env,
+                    '--continue-on-collection-errors', '--junitxml=' + out], cwd=REPO, env=env,
                    stdout=subprocess.DEVNULL, stderr=subprocess.DEVNULL)
     passed = set()
     for tc in ET.parse(out).getroot().iter('testcase'):
